@@ -10,7 +10,7 @@ components are the real `urlsplit` components, but **no answer of the real `spli
 shipped**: the stems are computed with `Lru.pslSplitT` on the trie the model builds from the
 regenerated suffix list (`Driver.C08.loadTables`, memoised by path).  Answer:
 `{"u_split": split, "rows": [[under, under_lower, clean_prefix, raw_prefix, lru_prefix,
-clean_lru_prefix, names, same_suffix_split, outside_suffix, dns_names, split_v], …]}` where
+clean_lru_prefix, names, under_raw, same_suffix_split, outside_suffix, dns_names, split_v], …]}` where
 `split` is `hostSplit` (`null` or `[domain, suffix]`), and `same_suffix_split`, `outside_suffix`,
 `dns_names` are the hypotheses of `Props.C13.stems_prefix_of_under_psl`.
 -/
@@ -67,6 +67,7 @@ def pairsPsl (t : Driver.C08.Tables) (j : Json) : Json :=
       jbool (lu.isPrefixOf (serializeLru sv)),
       jbool (lcu.isPrefixOf (serializeLru cv)),
       jbool (labelHost (specHost u.netloc) && labelHost (specHost v.netloc)),
+      jbool (decide (UnderRaw u v)),
       -- `sameSuffixSplitB (pslSplitT t.trie) u.netloc v.netloc`, on the two splits at hand
       jbool (match hsu, hsv with
         | none, none => true
